@@ -226,8 +226,13 @@ class BaseParagraph(debcon.FieldMixin):
             # If there are duplicated fields, we keep them all, but rename them
             # with a number suffix; they will go in the extra_data mapping.
             if name in seen_names:
-                name = f'{name}_{duplicated_field_name_suffix}'
+                new_name = f'{name}_{duplicated_field_name_suffix}'
                 duplicated_field_name_suffix += 1
+                # the suffixed name may itself be the name of another field
+                while new_name in seen_names:
+                    new_name = f'{name}_{duplicated_field_name_suffix}'
+                    duplicated_field_name_suffix += 1
+                name = new_name
             seen_names.add(name)
 
             if name in known_names:
